@@ -13,7 +13,7 @@ LEVEL_TEXT = ("Grid of idle_timeout / D and idle_timeout / T ratios in {0.1 .. 1
 LEVEL_NOTE = "In-process stack with SQLite persistence; restart = emulated process death (fresh runtime + server over the same file). Trusted: virtual clock, shims."
 DESIGN_REF = "§5 C14"
 RULE = "case = (timer kind, D or T, idle_timeout, restart instant); distinct = hash of the scenario; non-trivial = a release or restart happened while the timer was pending"
-REQUIRED_REACH = ["scenario", "timer_waiter_timeout", "timer_retry_delay", "released_while_timer_pending", "restart_while_timer_pending", "finished", "timer_waiter_chain"]
+REQUIRED_REACH = ["scenario", "timer_waiter_timeout", "timer_retry_delay", "released_while_timer_pending", "restart_while_timer_pending", "finished", "timer_waiter_chain", "timer_timeout_then_restart"]
 ASSUMPTIONS = []
 
 
@@ -27,9 +27,18 @@ def gen_case(seed):
     from vf import idle_cases as ic
 
     rnd = random.Random(seed)
-    kind = rnd.choice(["waiter_timeout", "retry_delay", "waiter_chain"])
+    kind = rnd.choice(["waiter_timeout", "retry_delay", "waiter_chain", "timeout_then_restart"])
     dur = rnd.choice([2.0, 5.0, 10.0])
     ratio = rnd.choice([0.1, 0.25, 0.5, 2.0, 10.0])
+    if kind == "timeout_then_restart":
+        # the waiter timeout fires in memory (idle_timeout is longer), the step is still busy handling it when the server restarts:
+        # the TimeoutError must still take effect after the restart
+        dur = rnd.choice([1.0, 2.0])
+        busy = rnd.choice([2.0, 4.0])
+        spec, keys = ic.gen_program(rnd, n=1, waiter_timeout=dur, post_wait_sleep=busy)
+        spec["sched_seed"] = seed
+        return {"seed": seed, "kind": kind, "dur": dur, "I": dur * rnd.choice([5.0, 20.0]), "spec": spec, "keys": keys, "restart": "after_timeout", "restart_frac": rnd.choice([0.25, 0.5, 0.75]),
+                "busy": busy}
     if kind == "waiter_chain":
         # two waits in a row with idle_timeout between one and two waiter timeouts: the release timer armed in the first idle
         # period comes due in the second one, before the second wait's timeout; the run must not be released by it
@@ -62,6 +71,9 @@ def run_one(case, acc):
         # the first wait is answered (not timed out) a little before its timeout
         sends = [{"at": 1.0 + dur * 0.75, "pay": {"key": k}} for k in case["keys"]]
     restarts = []
+    if case["restart"] == "after_timeout":
+        # items sleep <= 1 s before waiting; the timeout fires at <= 1 + dur (+ latencies); restart inside the busy stretch after it
+        restarts = [1.0 + dur + case["busy"] * case["restart_frac"]]
     if case["restart"] == "during":
         t0 = 1.0 if kind == "waiter_timeout" else 0.25
         restarts = [t0 + 0.5 + dur * case["restart_frac"] * 0.5]
@@ -75,7 +87,7 @@ def run_one(case, acc):
         return
     final = obs["phases"][-1]["h"]
     pending_release = [r for r in obs["releases"] if r.get("reason") == "idle_release" and
-                       (("TickWaiterTimeout" in r.get("wakeups", [])) if kind in ("waiter_timeout", "waiter_chain") else ("TickAddEvent" in r.get("wakeups", [])))]
+                       (("TickWaiterTimeout" in r.get("wakeups", [])) if kind in ("waiter_timeout", "waiter_chain", "timeout_then_restart") else ("TickAddEvent" in r.get("wakeups", [])))]
     if pending_release:
         acc.hit("released_while_timer_pending")
     if restarts:
